@@ -233,3 +233,69 @@ def run_family2(R, tier, rng, counter):
                     else: c.count(arrk(ss))
                     return kl(np.asarray(c[arrk(keys)]))
                 R.record(f"{name} :: batches {how} {samples}", guarded(totals), expect, expect, k >= 2, "batches/" + how, py=f"Counter({kdt} {keys}, {init}, mod={mod}).count({samples}) [{how}]")
+
+
+def extra_stage(R, tier, rng, counter):
+    """deterministic cases: who owns the arrays given to the constructor, sums of tables whose colliding keys were given in another order,
+    float constants without an explicit value dtype, signed samples of the key type's own width against unsigned keys"""
+    import numpy as np
+    from npstructures import HashTable, Counter
+    def val(x): return kl(np.asarray(x))
+    KS = [(list(range(4)), None), (list(range(7)), None), ([5, 10, 21, 3, 13], 5), ([13, 3, 21, 10, 5], 5), ([0, 7, 14, 3], 7), ([2, 9, 4], 1)]
+    for keys, mod in KS:
+        n = len(keys); tag = f"{keys} mod={mod}"
+        if not counter:
+            # (1) the value array belongs to the caller; two tables built from it are independent
+            def own():
+                v = np.arange(10, 10 + n); v0 = v.copy()
+                t1 = HashTable(keys, v, mod=mod); t2 = HashTable(keys, v, mod=mod)
+                t1[keys[1 % n]] = 99
+                a = [val(t2[keys]), val(v)]
+                v[:] = -1
+                return a + [val(t2[keys]), val(t1[keys])]
+            exp1 = [10 + i for i in range(n)]; exp_t1 = list(exp1); exp_t1[1 % n] = 99
+            R.record(f"own-values HashTable {tag}", guarded(own), [kl(exp1), kl(exp1), kl(exp1), kl(exp_t1)], [kl(exp1), kl(exp1), kl(exp1), kl(exp_t1)], n >= 2, "ownership/values",
+                     py=f"v = np.arange(10, {10 + n}); t1 = HashTable({keys}, v, mod={mod}); t2 = HashTable({keys}, v, mod={mod}); t1[{keys[1 % n]}] = 99; t2[keys]; v; v[:] = -1; t2[keys]; t1[keys]")
+            # (2) t1 + t2 where t2 holds the same keys in another order: refused, or the sum of the dictionaries
+            perm = keys[::-1]
+            def add():
+                t1 = HashTable(keys, np.arange(1, n + 1), mod=mod); t2 = HashTable(perm, np.arange(100, 100 * (n + 1), 100), mod=mod)
+                try: s = t1 + t2
+                except Exception: return "refused-or-correct"
+                d = {int(k): int(v) for k, v in s.items()}
+                want = {k: (i + 1) + 100 * (perm.index(k) + 1) for i, k in enumerate(keys)}
+                return "refused-or-correct" if d == want else ["wrong sum", sorted(d.items())]
+            R.record(f"add-permuted {tag}", guarded(add), "refused-or-correct", "refused-or-correct", n >= 2, "add/other-key-order",
+                     py=f"HashTable({keys}, arange(1..), mod={mod}) + HashTable({perm}, arange(100, .., 100), mod={mod})")
+            # (3) a float constant without an explicit value dtype, then one assignment
+            for c0, newv in ((0.5, 8.25), (2.75, -1.5), (1e10, 0.125)):
+                def fl():
+                    t = HashTable(keys, c0, mod=mod); before = val(t[keys])
+                    t[keys[-1]] = newv
+                    return [before, val(t[keys]), val(t[[keys[0]]])]
+                e_after = [c0] * n; e_after[-1] = newv
+                R.record(f"float-constant {c0} {tag}", guarded(fl), [kl([c0] * n), kl(e_after), kl([e_after[0]])], [kl([c0] * n), kl(e_after), kl([e_after[0]])], n >= 2, "float-constant-then-assign",
+                         py=f"t = HashTable({keys}, {c0}, mod={mod}); t[keys]; t[{keys[-1]}] = {newv}; t[keys]")
+        else:
+            # (1') the array of initial counts belongs to the caller; two counters built from it are independent
+            def ownc():
+                init = np.arange(5, 5 + n); i0 = init.copy()
+                a = Counter(keys, init, mod=mod); b = Counter(keys, init, mod=mod)
+                a.count([keys[0], keys[0], keys[-1]])
+                return [val(b[keys]), val(init), val(a[keys])]
+            ea = [5 + i for i in range(n)]; ea2 = list(ea); ea2[0] += 2; ea2[-1] += 1
+            if n == 1: ea2 = [ea[0] + 3]
+            R.record(f"own-initial Counter {tag}", guarded(ownc), [kl(ea), kl(ea), kl(ea2)], [kl(ea), kl(ea), kl(ea2)], n >= 2, "ownership/initial-counts",
+                     py=f"init = np.arange(5, {5 + n}); a = Counter({keys}, init, mod={mod}); b = Counter({keys}, init, mod={mod}); a.count([{keys[0]}, {keys[0]}, {keys[-1]}]); b[keys]; init; a[keys]")
+    if counter:
+        # signed samples of the key type's own width against unsigned keys: a negative sample is never a key
+        for kdt, sdt in (("uint8", "int8"), ("uint16", "int16"), ("uint32", "int32"), ("uint64", "int64")):
+            bits = np.iinfo(kdt).bits
+            keys = [int(np.iinfo(kdt).max), 5, 2 ** (bits - 1) + 3, 1]
+            for mod in (None, 3):
+                samples = [-1, 5, 5, -(2 ** (bits - 1)) + 3, 1, -1, -128 if bits > 8 else -127]
+                def cnt():
+                    c = Counter(np.array(keys, dtype=kdt), mod=mod); c.count(np.array(samples, dtype=sdt))
+                    return val(c[np.array(keys, dtype=kdt)])
+                R.record(f"signed-samples Counter({kdt} {keys}, mod={mod}).count({sdt} {samples})", guarded(cnt), kl([0, 2, 0, 1]), kl([0, 2, 0, 1]), True, "count/signed-samples-unsigned-keys",
+                         py=f"c = Counter(np.array({keys}, dtype='{kdt}'), mod={mod}); c.count(np.array({samples}, dtype='{sdt}')); c[keys]")
